@@ -244,15 +244,17 @@ class AutoSerialize:
             print(f"Warning: appending .zip to path '{path}'")
             path += ".zip"
 
-        # Handle overwrite vs. write protection
-        if os.path.exists(path):
-            if mode == "o":
-                if os.path.isdir(path):
-                    shutil.rmtree(path)
-                else:
-                    os.remove(path)
-            else:
-                raise FileExistsError(f"File '{path}' already exists. Use mode='o' to overwrite.")
+        # Write protection: never touch an existing target unless overwriting was requested
+        # (with mode='o' the old target is replaced only after the new one is complete)
+        if os.path.exists(path) and mode != "o":
+            raise FileExistsError(f"File '{path}' already exists. Use mode='o' to overwrite.")
+        if store not in ("zip", "dir"):
+            raise ValueError(f"Unknown store type: {store}")
+        # Directory mode requires no extension
+        if store == "dir" and os.path.splitext(path)[1]:
+            raise ValueError(
+                f"Expected a directory path for store='dir', but got file-like path '{path}'"
+            )
 
         # Normalize skip argument (split to names and types)
         if isinstance(skip, (str, type)):
@@ -267,34 +269,33 @@ class AutoSerialize:
                 f"{t.__module__}.{t.__qualname__}" for t in skip_types
             ]
 
-        # Main branch: choose between zip and directory storage
-        if store == "zip":
-            # Always use tempdir for safe atomic write
-            with tempfile.TemporaryDirectory() as tmpdir:
-                store_obj = LocalStore(tmpdir)
-                root = zarr.group(store=store_obj, overwrite=True)
-                self._recursive_save(self, root, skip_names, skip_types, compressors)
-                write_skip_metadata(root)
-                # Zip up all files in tempdir
-                with ZipFile(path, mode="w") as zf:
-                    for dirpath, _, filenames in os.walk(tmpdir):
-                        for filename in filenames:
-                            full_path = os.path.join(dirpath, filename)
-                            rel_path = os.path.relpath(full_path, tmpdir)
-                            zf.write(full_path, arcname=rel_path)
-        elif store == "dir":
-            # Directory mode requires no extension
-            if os.path.splitext(path)[1]:
-                raise ValueError(
-                    f"Expected a directory path for store='dir', but got file-like path '{path}'"
-                )
-            os.makedirs(path, exist_ok=True)
-            store_obj = LocalStore(path)
-            root = zarr.group(store=store_obj, overwrite=True)
+        # Build the store (and the archive) under a temporary sibling of the target and move
+        # it into place only after the last write: a save that fails part-way leaves the
+        # target as it was and never a partial store that load() would accept.
+        parent = os.path.dirname(os.path.abspath(path))
+        if store == "dir":
+            os.makedirs(parent, exist_ok=True)
+        with tempfile.TemporaryDirectory(dir=parent, prefix=".autoserialize-tmp-") as tmpdir:
+            staged = os.path.join(tmpdir, "store")
+            root = zarr.group(store=LocalStore(staged), overwrite=True)
             self._recursive_save(self, root, skip_names, skip_types, compressors)
             write_skip_metadata(root)
-        else:
-            raise ValueError(f"Unknown store type: {store}")
+            if store == "zip":
+                # Zip up all files of the staged store
+                staged_zip = os.path.join(tmpdir, "store.zip")
+                with ZipFile(staged_zip, mode="w") as zf:
+                    for dirpath, _, filenames in os.walk(staged):
+                        for filename in filenames:
+                            full_path = os.path.join(dirpath, filename)
+                            rel_path = os.path.relpath(full_path, staged)
+                            zf.write(full_path, arcname=rel_path)
+                staged = staged_zip
+            # Only reachable with mode='o': drop the old target, then rename into place
+            if os.path.isdir(path):
+                shutil.rmtree(path)
+            elif os.path.exists(path):
+                os.remove(path)
+            os.replace(staged, path)
 
     def _serialize_value(
         self,
